@@ -28,6 +28,7 @@ import time
 import z3
 
 REPO = os.environ.get('VP_REPO', '/repo')
+MUTABLE_FUNCTION_STATICS = set()
 LOOP_BOUND = 2          # loops only run over tuples whose length is a decision in {0, 1, 2}: the bound is never hit
 
 SHIM = r'''
@@ -581,6 +582,9 @@ class Exec:
         if op == 'load':
             parts = _split_top(t)
             src = parts[1].split()[-1]
+            if src in MUTABLE_FUNCTION_STATICS and not self.foreign:
+                raise Violation('shared-static-state', 'the lookup keeps state in the function-static variable %s (read in %s): shared between '
+                                                       'concurrent / re-entrant calls' % (src, fname))
             if src.startswith('@'):
                 env[ins.dst] = self.global_obj(src[1:])
                 return None
@@ -590,7 +594,13 @@ class Exec:
         if op == 'store':
             parts = _split_top(t)
             v = self.operand(parts[0], env)
-            addr = self.val(parts[1].split()[-1], env)
+            dst = parts[1].split()[-1]
+            if dst.startswith('@') and not self.foreign:
+                # M5: the lookup functions must be re-entrant (other lookups run at every callback point, and in other threads): a
+                # write to static / module-level storage is state shared between concurrent calls
+                raise Violation('shared-static-state', 'store to the static variable %s in %s: state shared between concurrent / re-entrant '
+                                                       'calls of the lookup' % (dst, fname))
+            addr = self.val(dst, env)
             self.store(addr, v)
             return None
         if op == 'select':
@@ -984,7 +994,11 @@ def main():
     import sys
     ir, entry, exotic, mh, budget, prefix = sys.argv[1:7]
     with open(ir) as f:
-        funcs = parse(f.read())
+        text = f.read()
+    funcs = parse(text)
+    global MUTABLE_FUNCTION_STATICS
+    # function-scope statics that are not constants (`static PyObject* x` inside a function is emitted as @function.x)
+    MUTABLE_FUNCTION_STATICS = set(re.findall(r'^(@[A-Za-z_]\w*\.[A-Za-z_]\w*) = internal global ', text, re.M))
     pfx = () if prefix == '-' else tuple(int(c) for c in prefix)
     st = analyse(funcs, entry, exotic == '1', int(mh), float(budget), pfx)
     print('IRJSON ' + json.dumps(st, default=str))
